@@ -1099,6 +1099,63 @@ def run_c06_payee_grid(ctx: common.Ctx):
             ctx.case({'head': head, 'history': hist}, nontrivial=True)
 
 
+def run_c06_stale_views(ctx: common.Ctx):
+    """Directed: views that were read (hence cached) BEFORE an operation that goes through ANOTHER door of the same list -
+    the view of the other kind (links vs tags), the raw list, or a release / claim of standalone comments (no edit of
+    the text at all). Afterwards every view of the model must still say what the printed text re-parses to."""
+    from autobean_refactor import models
+    from autobean_refactor.models import base
+
+    def all_views(root):
+        out = []
+        for p_, m_ in treewalk.walk(root):
+            if not isinstance(m_, base.RawTreeModel) or isinstance(m_, edits.internal.Repeated):
+                continue
+            for name in ('tags', 'links', 'currencies', 'values', 'postings', 'directives', 'meta'):
+                if hasattr(type(m_), name):
+                    try:
+                        v = getattr(m_, name)
+                        items = list(v.items()) if name == 'meta' else list(v)
+                        out.append((type(m_).__name__, name, [treewalk.text_of(x) if isinstance(x, base.RawModel) else repr(x) for x in items]))
+                    except Exception as e:
+                        out.append((type(m_).__name__, name, f'raised {type(e).__name__}'))
+        return out
+
+    T = '2000-01-01 * "n" #a ^l #b ^m #c\n  Assets:A  1 USD\n  Assets:B\n'
+    F = '; head\n\n2000-01-01 open Assets:A\n\n; mid\n\n2000-01-02 open Assets:B\n2000-01-03 open Assets:C\n'
+    X = '2000-01-01 *\n  aa: 1\n  Assets:A  1 USD\n  Assets:B\n'
+    plans = [
+        (T, lambda f: f.raw_directives[0].links.pop(0)),
+        (T, lambda f: f.raw_directives[0].links.insert(0, 'new')),
+        (T, lambda f: f.raw_directives[0].tags.pop(0)),
+        (T, lambda f: f.raw_directives[0].raw_tags_links.pop(1)),
+        (T, lambda f: f.raw_directives[0].links.clear()),
+        (F, lambda f: f.raw_directives_with_comments.unclaim_interleaving_comments()),
+        (F, lambda f: (f.raw_directives_with_comments.unclaim_interleaving_comments(), f.raw_directives_with_comments.claim_interleaving_comments())),
+        (F, lambda f: f.raw_directives_with_comments.pop(0)),
+        (F, lambda f: f.raw_directives_with_comments.insert(1, models.BlockComment.from_value('new', indent=''))),
+    ]
+    for k, (text, op) in enumerate(plans):
+        f = gen_docs.parse_ok(text, True)
+        all_views(f)                                  # read (cache) every view first
+        try:
+            op(f)
+        except Exception as e:
+            ctx.monitor_failure('C06:value-view-differs-from-text', f'directed plan {k} raised {type(e).__name__}: {e}', {'text': text, 'plan': k})
+            continue
+        ctx.count('stale_view_probes')
+        out = treewalk.text_of(f)
+        g = gen_docs.parse_ok(out, True)
+        if g is None:
+            ctx.monitor_failure('C06:printed-text-rejected', f'directed plan {k}: the printed document no longer parses', {'text': text, 'plan': k, 'printed': out})
+            continue
+        d = diff(all_views(f), all_views(g))
+        if d:
+            ctx.monitor_failure('C06:value-view-differs-from-text', f'views read before the operation (plan {k}) disagree with the re-parsed '
+                                f'text afterwards at {d}', {'text': text, 'plan': k, 'printed': out})
+        ctx.case({'plan': k}, nontrivial=True)
+
+
 def run_c06_whole_field(ctx: common.Ctx):
     """Directed: every view of a repeated field is read first (so that all of them are cached), then the whole
     field is replaced through its raw property by a free-standing wrapper with other contents (a deep copy of
